@@ -98,6 +98,18 @@ def run_shapes(ctx, rng, prs, png):
             shapes.turbo_add_enabled = turbo
             ops.append("T" if turbo else "t"); got.append("none")
             continue
+        if r < 0.14 and turbo:
+            # switched on AGAIN while on: the counter is read afresh from the ids in the part (the way to bring it up to
+            # date after ids were handed out through another collection)
+            shapes.turbo_add_enabled = True
+            if unsafe:
+                # the counter is up to date again: what follows is a history of its own, from the ids the part holds now
+                pre = [int(s) for s in slide._element.xpath("//@id") if s.isdigit()]
+                ops, got, unsafe = ["T"], ["none"], False
+                ctx.count("turbo-resynchronised-after-second-proxy")
+            else:
+                ops.append("T"); got.append("none")
+            continue
         before = set(int(s) for s in slide._element.xpath("//@id") if s.isdigit())
         target, depth = (None, 0)
         if groups and rng.random() < 0.5:
@@ -541,8 +553,39 @@ def run_links(ctx, rng):
 # ------------------------------------------------------------------------------------------
 
 
+def turbo_resync(ctx):
+    """turbo-add on, ids handed out through ANOTHER collection of the same slide (a group's, a nested group's), turbo-add
+    assigned True again (the counter is read afresh), then more shapes through the first collection: no id twice"""
+    from pptx import Presentation
+
+    for depth in (1, 2):
+        for n_other in (1, 3):
+            prs = Presentation()
+            slide = prs.slides.add_slide(prs.slide_layouts[6])
+            shapes = slide.shapes
+            shapes.add_textbox(0, 0, 5, 5)
+            g = shapes.add_group_shape()
+            coll = g.shapes
+            for _ in range(depth - 1):
+                coll = coll.add_group_shape().shapes
+            shapes.turbo_add_enabled = True
+            shapes.add_textbox(0, 0, 5, 5)
+            for _ in range(n_other):
+                coll.add_textbox(0, 0, 5, 5)
+            shapes.turbo_add_enabled = True
+            for _ in range(2):
+                shapes.add_textbox(0, 0, 5, 5)
+            ids = [int(s) for s in slide._element.xpath("//p:cNvPr/@id")]
+            ctx.case(key=("turbo-resync", depth, n_other))
+            if len(set(ids)) != len(ids):
+                ctx.fail("shape-id-reused:turbo-resync", f"turbo-add switched on again after {n_other} shape(s) were added through a group's collection "
+                         f"(depth {depth}): ids {ids}", {"kind": "shapes", "depth": depth, "others": n_other})
+
+
 def correspond(ctx):
     from pptx import Presentation
+
+    turbo_resync(ctx)
 
     rng = ctx.rng
     png = _png(3)
